@@ -91,7 +91,7 @@ Value& MemberPUTExpression::value(Context& ctx) const
       case Type::INTEGER:
         if (a1_type == Type::NUMERIC)
         {
-          rv->at(p).deref_value().swap(Value(Integer(*a1.numeric())));
+          rv->at(p).deref_value().swap(Value(Value::toInteger(*a1.numeric())));
           return val;
         }
         else if (a1.type() == Type::NO_TYPE)
